@@ -634,6 +634,8 @@ def build_messages(env: Env, broker: ScriptedBroker, cfg: Dict[str, Any]) -> Non
             labels: Dict[str, Any] = {"lbl": f"L{idx}", "n": idx}
             if mc.get("timeout"):
                 labels["timeout"] = mc["timeout"] / 10.0
+                if idx % 4 == 1:
+                    labels["timeout"] = repr(labels["timeout"])     # the label as text, e.g. with_labels(timeout="0.3"): a number all the same
             name = "no_such_task" if kind == "unknown" else mc.get("task", "ta0")
             if mc.get("late"):
                 name = "tlate"           # a task that is registered while the worker is running (scenario step "register")
